@@ -311,12 +311,23 @@ Definition eff_revs (w : world) : list revid :=
   | _ => orevs (find_repo w)
   end.
 
+(* Reconfigure._fetch_pending_merges(to_repo, from_repo): for a tree that is kept, every pending merge the
+   source repository holds is fetched (with its ancestry) -- the revisions added to to_repo *)
+Definition pending_of (p : plan) (w0 : world) : list revid :=
+  match w_tree w0 with
+  | Some t => if p_destroy_tree p then [] else List.tl (t_parents t)
+  | None => []
+  end.
+Definition pend_fetch (g : dag) (src : list revid) (ms : list revid) : list revid :=
+  flat_map (fun m => if memb m src then fetched g src (Some m) else []) ms.
+
 Definition step_create_repository (p : plan) (w0 : world) (w : world) : res :=
   if p_create_repository p then
     let keep_local := is_some (local_of w0) && negb (p_destroy_branch p) in
     let src := if keep_local
                then fetched (w_g w) (orevs (find_repo w0))
-                          (match local_of w0 with Some b => b_tip b | None => None end)
+                            (match local_of w0 with Some b => b_tip b | None => None end)
+                    ++ pend_fetch (w_g w) (orevs (find_repo w0)) (pending_of p w0)
                else [] in
     Ok (set_repo w (Some (mkRepo false true (union src []))))
   else Ok w.
@@ -328,7 +339,7 @@ Definition step_fetch_referenced (p : plan) (w0 : world) (w : world) : res :=
         match place_revs w0 l o with      (* self.referenced_branch.repository was opened by __init__ *)
         | None => Fail "NoRepositoryPresent" w
         | Some src =>
-            match loc_repo_add w (fetched (w_g w) src (o_tip o)) with
+            match loc_repo_add w (fetched (w_g w) src (o_tip o) ++ pend_fetch (w_g w) src (pending_of p w0)) with
             | Some w' => Ok w'
             | None => Fail "AttributeError" w
             end
@@ -345,6 +356,9 @@ Definition step_open_reference (p : plan) (w0 : world) (nb : option loc) (w : wo
     end
   else Ok w.
 
+(* if self._create_reference and self.local_branch is not None: _fetch_pending_merges(reference repo, local repo)
+   if self._destroy_repository: fetch everything into the reference's repository / the repository above.
+   (When the repository is destroyed, fetching everything subsumes the pending merges: modelled once.) *)
 Definition step_destroy_repository_fetch (p : plan) (w0 : world) (nb : option loc) (w : world) : res :=
   if p_destroy_repository p then
     let all := orevs (find_repo w) in
@@ -360,12 +374,24 @@ Definition step_destroy_repository_fetch (p : plan) (w0 : world) (nb : option lo
           end
       | None => Fail "NoBindLocation" w
       end
-    else if is_some (local_of w0) && negb (p_destroy_branch p) then
+    else
+      (* with or without a branch of its own: into the repository above, or refuse before anything is destroyed *)
       match w_outer w with
       | Some r => Ok (set_outer w (Some (add_revs all r)))
       | None => Fail "NotBranchError" w          (* nothing above the location *)
       end
-    else Ok w                                      (* nothing is fetched before the repository goes *)
+  else if p_create_reference p && is_some (local_of w0) then
+    match select_bind w0 nb with
+    | Some l =>
+        match get_other w l with
+        | Some o => match place_repo_add w l o (pend_fetch (w_g w) (orevs (find_repo w0)) (pending_of p w0)) with
+                    | Some w' => Ok w'
+                    | None => Fail "NoRepositoryPresent" w
+                    end
+        | None => Fail "NotBranchError" w
+        end
+    | None => Fail "NoBindLocation" w
+    end
   else Ok w.
 
 (* last_revision_info as apply() computes it before destroying anything: Some tip, or None (never assigned) *)
@@ -434,18 +460,24 @@ Definition step_unbind (p : plan) (w : world) : res :=
     end
   else Ok w.
 
+(* the branch to bind to is opened before anything is changed (apply, right after _check); Some e = raises e *)
+Definition pre_bind (p : plan) (w0 : world) (nb : option loc) : option string :=
+  if p_bind p then
+    match select_bind w0 nb with
+    | None => Some "NoBindLocation"
+    | Some l => match get_other w0 l with None => Some "NotBranchError" | Some _ => None end
+    end
+  else None.
+
+(* local_branch.bind(bind_branch) *)
 Definition step_bind (p : plan) (w0 : world) (nb : option loc) (w : world) : res :=
   if p_bind p then
     match select_bind w0 nb with
-    | None => Fail "NoBindLocation" w
+    | None => Fail "NoBindLocation" w          (* unreachable: pre_bind passed *)
     | Some l =>
-        match get_other w l with
-        | None => Fail "NotBranchError" w
-        | Some _ =>
-            match w_branch w with
-            | BLocal b => Ok (set_branch w (BLocal (mkLB (b_tip b) (b_tags b) (Some (true, l)) (b_push b) (b_parent b))))
-            | _ => Fail "AttributeError" w
-            end
+        match w_branch w with
+        | BLocal b => Ok (set_branch w (BLocal (mkLB (b_tip b) (b_tags b) (Some (true, l)) (b_push b) (b_parent b))))
+        | _ => Fail "AttributeError" w
         end
     end
   else Ok w.
@@ -486,7 +518,11 @@ Definition steps (nb : option loc) (p : plan) (w0 : world) : list (world -> res)
 Definition apply (force : bool) (nb : option loc) (p : plan) (w0 : world) : res :=
   match (if force then None else check p w0 nb) with
   | Some e => Fail e w0
-  | None => run_steps (steps nb p w0) w0
+  | None =>
+      match pre_bind p w0 nb with
+      | Some e => Fail e w0
+      | None => run_steps (steps nb p w0) w0
+      end
   end.
 
 (* the whole operation: factory, then apply *)
